@@ -120,6 +120,7 @@ def register_build(reg: Registry) -> None:
             "smb._mappings_macros is not self.source_map._mappings_macros",
             "smb._pos_marks_macros is not self.source_map._position_marks_macro and smb._pos_marks_macros is not self.source_map._position_marks",
             "smb._macro_context__stack is not self.blueprints and smb._pos_marks_macros is not self.blueprints and smb._macro_context__stack is not smb._pos_marks_macros",
+            "smb._macro_context__stack is not self.variables and smb._pos_marks_macros is not self.variables",
             # complete label jumps; every real op of the body has an entry in the macro's own source map
             "all_int(lambda i: implies(0 <= i and i < len(self.blueprints) and isinstance(self.blueprints[i], SsbLabelJump), not is_none(typed(self.blueprints[i], 'SsbLabelJump')._root) and not is_none(typed(self.blueprints[i], 'SsbLabelJump').label)))",
             "all_int(lambda i: implies(0 <= i and i < len(self.blueprints) and not isinstance(self.blueprints[i], SsbLabel), bp_root(self.blueprints[i]).offset in self.source_map._mappings_macros or bp_root(self.blueprints[i]).offset in self.source_map._mappings))",
